@@ -3,7 +3,7 @@ import re
 
 from effects import Effects
 from facts import EngineError
-from flow import result_exits, must_pass, calls_named, bool_switch_targets, value_defs
+from flow import result_exits, must_pass, calls_named, bool_switch_targets, value_defs, reach_const
 from mir import AP, FnA, callee_of, callee_paths, op_place, op_const, strip_generics
 
 ENC_TRAITS = ("bincode::Encode", "bincode::enc::Encode")
@@ -593,11 +593,13 @@ def magic_rule(ctx):
                 magic_const = k
         f_t, t_t = bool_switch_targets(t)
         mismatch = t_t if is_ne else f_t
-        r = fa.reachable(mismatch)
+        # what the mismatch edge can reach, following an `Err(..)` built there through `?`
+        # (the comparison may sit in an expanded helper that returns Result<()>)
+        r = reach_const(fa, mismatch)
         if (r & ok_b) or db in r:
             why = "the mismatch branch of the magic comparison still reaches decoding / Ok"
             continue
-        if not fa.dominates(b, db):
+        if not fa.dominates(b, db) and db in reach_const(fa, 0, avoid={b}):
             why = "decoding is not dominated by the magic comparison"
             continue
         if not any(fa.dominates(rb, b) for rb, _ in re_calls):
